@@ -58,7 +58,7 @@ func g0(e *Env, t *schema.Type) *gen.Rng { return gen.NewRng(e.Seed, "C16", "scr
 func c16Workload(e *Env) {
 	r := e.R
 	types := e.Types()
-	n := e.N(100, 3000)
+	n := e.N(100, 12000)
 	acc := newFeatAcc()
 	e.Par(len(types), func(i int) {
 		t := types[i]
